@@ -329,6 +329,8 @@ def dependency_closure(ctx: Ctx) -> None:
     from ..engines.structure import lazy_state_rule
     lazy_state_rule(sub, {fi.qualname for fi in ctx.p.all_functions()})      # object state anywhere in the library
     reach_rule(sub, reach | set(roots))
+    from ..engines.structure import misc_hazard_rules
+    misc_hazard_rules(sub, reach | set(roots))
     check_tables_immutable(sub, "IMMUT")
     for o in sub.obligations:
         ctx.obligations.append(o)
